@@ -117,7 +117,7 @@ T("pm1_combination", f"""forall (cell : option RV) (mass : nat -> R) (cv : colva
   "exact pm1_combination.", "+-1 combinations of n components: the inverse holds and the Jacobian force is kT * sum (+-jd_i) / n")
 
 LAST = "last_ft (snd (eng_run Rops PI cell mass cv {inc} s ({hist})))"
-OWN = f"applied_force Rops cv (e_fb i1) (cv_fj {M} (e_pos i1) cv)"
+OWN = f"applied_force Rops cv (e_apply i1) (e_fb i1) (cv_fj {M} (e_pos i1) cv)"
 INVOK = f"""Forall (fun p => forall fc, cvc_ft {M} (e_pos {{i}}) (fst p) (cvc_apply {M} (e_pos {{i}}) (fst p) fc) = fc) (cv_comps cv) ->
   ForallOrdPairs (fun p q => forall a, In a (cvc_atoms (fst p)) -> ~ In a (cvc_atoms (fst q))) (cv_comps cv) ->
   cv_sqnorm Rops cv <> 0 ->"""
@@ -125,35 +125,41 @@ def invok(i): return INVOK.replace("{i}", i)
 okpf = "assert (Hok : cv_inv_ok cell mass (e_pos %s) cv) by (repeat split; assumption)."
 
 T("inverse_lagged", f"""forall (cell : option RV) (mass : nat -> R) (cv : colvar) (pre : list einput) (s : estate) (i1 i2 : einput),
-  cv_samestep cv = false ->
+  cv_samestep cv = false -> e_apply i1 = true ->
   {invok('i1')}
   (forall a, In a (cv_atoms cv) -> e_force i1 a = vzero Rops) ->
   {LAST.format(inc='true', hist='pre ++ [i1; i2]')} =
-    {OWN} + (if adds_fj cv then cv_fj {M} (e_pos i1) cv else 0)
+    {OWN} + (if adds_fj cv (cv_hide cv) then cv_fj {M} (e_pos i1) cv else 0)
     - (if cv_subtract cv then {OWN} else 0)""",
-  f"intros cell mass cv pre s i1 i2 H Hi Hd Hs Hz. {okpf % 'i1'} exact (inverse_lagged cell mass cv pre s i1 i2 H Hok Hz).",
+  f"intros cell mass cv pre s i1 i2 H Ha Hi Hd Hs Hz. {okpf % 'i1'} exact (inverse_lagged cell mass cv pre s i1 i2 H Ha Hok Hz).",
   "lagged convention, every history: if at step t-1 the variable's atoms experienced exactly the forces Colvars applied\n   (the engine's own force vanishes on them), the report of step t is the applied variable force f(t-1), plus kT*jd(t-1)\n   unless hidden, minus f(t-1) with subtractAppliedForce")
 T("inverse_lagged_jacobian", f"""forall (cell : option RV) (mass : nat -> R) (cv : colvar) (pre : list einput) (s : estate) (i1 i2 : einput),
-  cv_samestep cv = false -> cv_hide cv = false -> cv_subtract cv = false ->
+  cv_samestep cv = false -> e_apply i1 = true -> cv_hide cv = false -> cv_subtract cv = false ->
   {invok('i1')}
   (forall a, In a (cv_atoms cv) -> e_force i1 a = vzero Rops) ->
   {LAST.format(inc='true', hist='pre ++ [i1; i2]')} = e_fb i1 + cv_fj {M} (e_pos i1) cv""",
-  f"intros cell mass cv pre s i1 i2 H Hh Hsb Hi Hd Hs Hz. {okpf % 'i1'} exact (inverse_lagged_jacobian cell mass cv pre s i1 i2 H Hh Hsb Hok Hz).",
+  f"intros cell mass cv pre s i1 i2 H Ha Hh Hsb Hi Hd Hs Hz. {okpf % 'i1'} exact (inverse_lagged_jacobian cell mass cv pre s i1 i2 H Ha Hh Hsb Hok Hz).",
   "f plus the temperature-weighted Jacobian term")
 T("inverse_lagged_hidden", f"""forall (cell : option RV) (mass : nat -> R) (cv : colvar) (pre : list einput) (s : estate) (i1 i2 : einput),
-  cv_samestep cv = false -> cv_hide cv = true -> cv_subtract cv = false ->
+  cv_samestep cv = false -> e_apply i1 = true -> cv_hide cv = true -> cv_subtract cv = false ->
   {invok('i1')}
   (forall a, In a (cv_atoms cv) -> e_force i1 a = vzero Rops) ->
   {LAST.format(inc='true', hist='pre ++ [i1; i2]')} = e_fb i1""",
-  f"intros cell mass cv pre s i1 i2 H Hh Hsb Hi Hd Hs Hz. {okpf % 'i1'} exact (inverse_lagged_hidden cell mass cv pre s i1 i2 H Hh Hsb Hok Hz).",
+  f"intros cell mass cv pre s i1 i2 H Ha Hh Hsb Hi Hd Hs Hz. {okpf % 'i1'} exact (inverse_lagged_hidden cell mass cv pre s i1 i2 H Ha Hh Hsb Hok Hz).",
   "Jacobian term hidden on request: the bias force alone")
 T("inverse_lagged_T0", f"""forall (cell : option RV) (mass : nat -> R) (cv : colvar) (pre : list einput) (s : estate) (i1 i2 : einput),
-  cv_samestep cv = false -> cv_kT cv = 0 -> cv_subtract cv = false ->
+  cv_samestep cv = false -> e_apply i1 = true -> cv_kT cv = 0 -> cv_subtract cv = false ->
   {invok('i1')}
   (forall a, In a (cv_atoms cv) -> e_force i1 a = vzero Rops) ->
   {LAST.format(inc='true', hist='pre ++ [i1; i2]')} = e_fb i1""",
-  f"intros cell mass cv pre s i1 i2 H HT Hsb Hi Hd Hs Hz. {okpf % 'i1'} exact (inverse_lagged_T0 cell mass cv pre s i1 i2 H HT Hsb Hok Hz).",
+  f"intros cell mass cv pre s i1 i2 H Ha HT Hsb Hi Hd Hs Hz. {okpf % 'i1'} exact (inverse_lagged_T0 cell mass cv pre s i1 i2 H Ha HT Hsb Hok Hz).",
   "temperature zero: no Jacobian term")
+T("lagged_not_applied", f"""forall (cell : option RV) (mass : nat -> R) (cv : colvar) (inc : bool) (pre : list einput) (s : estate) (i1 i2 : einput),
+  cv_samestep cv = false -> e_apply i1 = false ->
+  {LAST.format(inc='inc', hist='pre ++ [i1; i2]')} =
+    cv_proj {M} (e_pos i1) cv (e_force i1) + (if cv_hide cv then 0 else cv_fj {M} (e_pos i1) cv)
+    - (if cv_subtract cv then e_fb i1 else 0)""", "exact lagged_not_applied.",
+  "a step at which NO bias applies a force to the variable (bias asleep, switched off, deleted, none defined): nothing of Colvars is in the\\n   engine's forces and no Jacobian-compensating force was applied, so the next report is the projection of the engine's forces,\\n   plus the Jacobian term unless hidden (f_old = fb, normally 0, is still subtracted with subtractAppliedForce)")
 T("inverse_same_step", f"""forall (cell : option RV) (mass : nat -> R) (cv : colvar) (inc : bool) (pre : list einput) (s : estate) (i : einput) (f : R),
   cv_samestep cv = true ->
   {invok('i')}
@@ -178,7 +184,7 @@ T("local_measured", f"""forall (cell : option RV) (mass : nat -> R) (pos : RF) (
 T("local_variable", f"""forall (cell : option RV) (mass : nat -> R) (pos : RF) (cv : colvar) (F G : RF),
   (forall a, In a (cv_atoms cv) -> F a = G a) -> cv_proj {M} pos cv F = cv_proj {M} pos cv G""", "exact cv_proj_local.")
 T("local_report_lagged", f"""forall (cell : option RV) (mass : nat -> R) (cv : colvar) (inc : bool) (pre pre' : list einput) (s s' : estate) (i1 i1' i2 i2' : einput),
-  cv_samestep cv = false -> e_pos i1 = e_pos i1' -> e_fb i1 = e_fb i1' ->
+  cv_samestep cv = false -> e_pos i1 = e_pos i1' -> e_fb i1 = e_fb i1' -> e_apply i1 = e_apply i1' ->
   (forall a, In a (cv_atoms cv) -> e_force i1 a = e_force i1' a) ->
   {LAST.format(inc='inc', hist='pre ++ [i1; i2]')} = last_ft (snd (eng_run Rops PI cell mass cv inc s' (pre' ++ [i1'; i2'])))""",
   "exact local_lagged.", "reports: two histories whose step t-1 differs only by engine forces on atoms outside the variable's groups\n   (and arbitrarily before t-1 and at t) report the same total force at t")
@@ -190,26 +196,26 @@ T("local_report_same_step", f"""forall (cell : option RV) (mass : nat -> R) (cv 
 
 # ---------------- subtract, timing
 T("subtract_applied", f"""forall (cell : option RV) (mass : nat -> R) (cv : colvar) (pre : list einput) (s : estate) (i1 i2 : einput),
-  cv_samestep cv = false -> cv_subtract cv = true ->
+  cv_samestep cv = false -> e_apply i1 = true -> cv_subtract cv = true ->
   {invok('i1')}
   {LAST.format(inc='true', hist='pre ++ [i1; i2]')} =
     cv_proj {M} (e_pos i1) cv (e_force i1) + (if cv_hide cv then 0 else cv_fj {M} (e_pos i1) cv)""",
-  f"intros cell mass cv pre s i1 i2 H Hsb Hi Hd Hs. {okpf % 'i1'} exact (subtract_applied cell mass cv pre s i1 i2 H Hsb Hok).",
+  f"intros cell mass cv pre s i1 i2 H Ha Hsb Hi Hd Hs. {okpf % 'i1'} exact (subtract_applied cell mass cv pre s i1 i2 H Ha Hsb Hok).",
   "subtractAppliedForce (lagged convention, the engine's total force includes Colvars' forces): the report is the projection of the\n   engine's own forces (+ Jacobian term unless hidden) whatever force Colvars applied")
 T("without_subtract", f"""forall (cell : option RV) (mass : nat -> R) (cv : colvar) (pre : list einput) (s : estate) (i1 i2 : einput),
-  cv_samestep cv = false -> cv_subtract cv = false ->
+  cv_samestep cv = false -> e_apply i1 = true -> cv_subtract cv = false ->
   {invok('i1')}
   {LAST.format(inc='true', hist='pre ++ [i1; i2]')} =
     cv_proj {M} (e_pos i1) cv (e_force i1) + {OWN}
-    + (if adds_fj cv then cv_fj {M} (e_pos i1) cv else 0)""",
-  f"intros cell mass cv pre s i1 i2 H Hsb Hi Hd Hs. {okpf % 'i1'} exact (without_subtract cell mass cv pre s i1 i2 H Hsb Hok).",
+    + (if adds_fj cv (cv_hide cv) then cv_fj {M} (e_pos i1) cv else 0)""",
+  f"intros cell mass cv pre s i1 i2 H Ha Hsb Hi Hd Hs. {okpf % 'i1'} exact (without_subtract cell mass cv pre s i1 i2 H Ha Hsb Hok).",
   "... and without the option it contains the applied force of step t-1")
 T("timing", f"""forall (cell : option RV) (mass : nat -> R) (cv : colvar) (inc : bool) (i1 i2 : einput),
   cv_samestep cv = false -> forall (pre : list einput) (s : estate),
   {LAST.format(inc='inc', hist='pre ++ [i1; i2]')} =
     cv_proj {M} (e_pos i1) cv
-      (if inc then fadd Rops (e_force i1) (cv_apply {M} (e_pos i1) cv ({OWN})) else e_force i1)
-    + (if adds_fj cv then cv_fj {M} (e_pos i1) cv else 0)
+      (if inc then fadd Rops (e_force i1) (if e_apply i1 then cv_apply {M} (e_pos i1) cv ({OWN}) else fzero Rops) else e_force i1)
+    + (if adds_fj cv (cv_hide cv && e_apply i1) then cv_fj {M} (e_pos i1) cv else 0)
     - (if cv_subtract cv then {OWN} else 0)""",
   "exact history_lag.", "lagged convention, every history pre, every state s, whatever happens at step t (i2): the report of step t is the projection of the\n   forces exerted at t-1 on the inverse gradients of t-1, with the Jacobian term and the applied force of t-1")
 T("timing_same_step", f"""forall (cell : option RV) (mass : nat -> R) (cv : colvar) (inc : bool) (i : einput),
